@@ -4,9 +4,8 @@ CHECKS = {}
 
 # properties not (yet) claimed, with the reason; entries are dropped automatically once a check exists
 NOT_APPLICABLE = {
-    "C19": "The description language is built on fmt formatting of a symbolic text, a rune-classifying lexer and lexer/parser goroutines communicating over channels; goroutine scheduling is not a symbolic variable of a sequential SSA executor and enumerating concrete texts would be testing, not solver-based checking (DESIGN.md §5 C19).",
 }
-for _p in ["C01", "C02", "C03", "C04", "C05", "C06", "C07", "C08", "C09", "C10", "C12", "C13", "C14", "C15", "C16", "C18", "C20"]:
+for _p in ["C01", "C02", "C03", "C04", "C05", "C06", "C07", "C08", "C09", "C10", "C12", "C13", "C14", "C15", "C16", "C18", "C19", "C20"]:
     NOT_APPLICABLE[_p] = "no check registered yet in this revision (planned, see DESIGN.md §5); not claimed"
 
 def H(pkg, files, func, reach=(), quick=None, thorough=None, **kw):
@@ -340,4 +339,20 @@ CHECKS["C16"] = {
                "thorough": "same"},
     "outside": ["actual goroutine interleavings and the Go race detector", "CFF fonts (AsCFF().Write, WriteOpenTypeCFFPDF)", "builder.ExplainGsub/ExplainGpos (formatting-bound)", "races inside natively executed library functions (language matcher, Adobe glyph list)"],
     "assumptions": ["Go memory model: calls that do not write shared memory do not race", "natively executed intrinsics (x/text language matching, names.FromUnicode) are assumed not to write shared state"],
+}
+
+_B = ["c19.go"]
+CHECKS["C19"] = {
+    "harnesses": [
+        H("opentype/gtab/builder", _B, "VerifH_C19_templates", ["done"], quick={"timeout": 100}),
+        H("opentype/gtab/builder", _B, "VerifH_C19_roundtrip", ["done"], quick={"params": {"fonts": 2, "maxgid": 3, "vrfields": 1}, "timeout": 280, "shards": 10},
+          thorough={"params": {"fonts": 4, "maxgid": 7}, "timeout": 3000, "shards": 10}),
+        H("opentype/gtab/builder", _B, "VerifH_C19_text", ["accepted", "rejected"], quick={"params": {"window": 1}, "timeout": 280, "shards": 12},
+          thorough={"params": {"window": 2}, "timeout": 3000, "shards": 12}),
+    ],
+    "level_text": "Bounded symbolic execution of builder.Parse / ExplainGsub / ExplainGpos including the lexer, string-decoder and parser goroutines: the engine runs interpreted goroutines with a channel model (unbuffered and buffered channels, close, range), reports 'all goroutines are asleep' as a deadlock, a panic in any goroutine as a crash and goroutines that can never finish as leaks.  Texts are valid descriptions with a window of arbitrary bytes; lookup lists have concrete shape with symbolic flags, glyph ids, value records and nested actions.",
+    "bounds": {"quick": "12 valid descriptions (GSUB 1-6, GPOS 1-4, all subtable alternatives the language has syntax for) with every window of 1 arbitrary ASCII byte [thorough: 2 bytes] at every position, over a font of 8 named and mapped glyphs; round trip Parse(Explain(L)) == L for 10 lookup kinds (GSUB 1.1/1.2/2.1/3.1/4.1 with two ligatures, context 5.1, chained context 6.3, GPOS 1.1/1.2/2.1) with all 8 subsets of the ignore flags, glyph ids symbolic in 1..3 [1..7 thorough], value records (nil or not) with one field over all of int16 and two fields present/absent [thorough: all three over int16], nested action indices symbolic uint16, over 2 fonts (named and mapped / neither) [thorough: all 4 combinations]; goroutine schedule: deterministic (run until blocked) in these harnesses",
+               "thorough": "window of 2 bytes"},
+    "outside": ["texts further than a 2-byte window from the 12 templates (random / grammar-derived texts)", "non-ASCII bytes in the window unless param ascii=0", "GPOS 2.2/3/4 and class based contexts in the symbolic round trip (covered by the concrete templates only)", "real OS-thread interleavings (GOMAXPROCS): goroutines are interleaved at channel operations", "numbers with more than 18 digits"],
+    "assumptions": ["goroutines communicate through channels only (interleaving at channel operations is then exhaustive)", "lookup lists in the normal form the parser produces (coverage order, value record nil iff all zero)"],
 }
